@@ -61,7 +61,8 @@ def presentations(spec, case):
     import gc
     out = []
     heavy = any(f.startswith('form:wholecol') for f in G.features_of(spec))  # 2^20-row operands: free each model before the next
-    for how in case.get('dict_orders', ['asis']):
+    anchors = 'spill-anchor' in G.features_of(spec)  # C1# needs complete(): file presentations only
+    for how in ([] if anchors else case.get('dict_orders', ['asis'])):
         out.append(('dict:' + how, run_dict(spec, how)))
         heavy and gc.collect()
     nb = len(spec['books'])
@@ -152,7 +153,7 @@ def _specs(tier):
     q = tier == 'quick'
     return st.builds(lambda spec, orders, rev, links: {'k': 'spec', 'spec': spec, 'dict_orders': ['asis'] + orders, 'files': True, 'rev_sheets': rev,
                                                         'links': links},
-                     G.specs(tier, max_books=2 if q else 3, wholecols=False),
+                     G.specs(tier, max_books=2 if q else 3, wholecols=False, anchor_rate=3),
                      st.lists(st.sampled_from(ORDERS[1:]), min_size=1, max_size=2 if q else 3, unique=True),
                      st.booleans(), st.one_of(st.none(), st.integers(0, 7)))
 
@@ -181,6 +182,24 @@ def _wide_specs():
         cells.append({'at': [0, 0, 8, 1], 'f': ['fn', 'SUM', ['rng', [0, 0, 1, c0 + 1, 2, c0 + 2]]]})
         spec = {'books': [{'name': 'b0.xlsx', 'sheets': ['S1']}], 'cells': cells, 'names': [{'name': 'TOTAL_IN', 'rect': [0, 0, 2, c0 + 1, 2, c0 + 2]}]}
         out.append({'k': 'spec', 'spec': spec, 'dict_orders': ['asis', 'reversed'], 'files': True})
+    return out
+
+
+def _anchor_specs():
+    """Fixed shapes (added after seed c03-b-r4): a spill reference (C1#) to an array formula of ANOTHER book, which nothing else
+    refers to - so with only the first book given to loads() the anchor is the one thing that pulls the array formula in."""
+    out = []
+    for shape in ((3, 1), (1, 3), (2, 2)):
+        h, w = shape
+        cells = [{'at': [1, 0, 1 + i, 1 + j], 'v': float(1 + i * w + j)} for i in range(h) for j in range(w)]
+        area = [1, 0, 1, 5, h, 4 + w]
+        cells.append({'at': [1, 0, 1, 5], 'f': ['bin', '*', ['rng', [1, 0, 1, 1, h, w]], ['num', 2.0]], 'arr': [h, 4 + w]})
+        cells.append({'at': [0, 0, 1, 1], 'f': ['bin', '+', ['fn', 'SUM', ['anchor', [1, 0, 1, 5], area]], ['num', 1.0]]})
+        cells.append({'at': [0, 0, 2, 1], 'f': ['fn', 'MAX', ['anchor', [1, 0, 1, 5], area], ['num', 0.5]]})
+        cells.append({'at': [0, 0, 3, 1], 'f': ['bin', '*', ['ref', [0, 0, 1, 1]], ['num', 2.0]]})
+        spec = {'books': [{'name': 'b0.xlsx', 'sheets': ['S1']}, {'name': 'b1.xlsx', 'sheets': ['Data']}], 'cells': cells, 'names': []}
+        for links in (None, 0, 3):
+            out.append({'k': 'spec', 'spec': spec, 'dict_orders': ['asis'], 'files': True, 'links': links})
     return out
 
 
@@ -243,6 +262,7 @@ def parts(tier, seed):
         ('hyp', 'specs', 320 if q else 6000),
         ('hyp', 'wholecol', 8 if q else 320, 1, {'nproc': 8}),
         ('enum', 'wide-columns', _wide_specs(), 1, False),
+        ('enum', 'anchor-across-books', _anchor_specs(), 1, False),
         ('custom', 'hashseeds', 'hashseed_batch',
          [{'shard': i, 'n': per, 'hashseeds': [1, 2] if q else [1, 2, 3, 4]} for i in range(shards)]),
     ]
